@@ -85,6 +85,10 @@ class AbstractFileSystem(DictType):
         """
         item = self.key_conv.serialize(item)
 
+        if item.endswith(".lock"):
+            # a lock file is not a stored value
+            raise KeyError(item)
+
         if self.is_changed(item):
             logger.info(f"File content change in {item}")
             fname = os.path.join(self.fdir, item)
